@@ -44,7 +44,7 @@ class Run:
         at = smt.Atomizer(roots)
         text = smt.print_smt(at.out + at.axioms)
         self.fork_queries += 1
-        v, _, _ = solver.check(text, (), fast_ms=2000, slow_s=10)
+        v, _, _ = solver.check(text, (), fast_ms=2000, slow_s=10, tag="fork")
         return v
 
     def decide(self, cond):
